@@ -54,18 +54,64 @@ func runC13(c *Ctx) {
 		g, ok := v.(*ssa.Global)
 		return ok && g.Name() == "ManifestFile" && g.Pkg.Pkg.Path() == endorsePkg
 	}
+	// A write is the workspace's WriteOrCreateFiles, or a call of a wrapper of it: a function of package endorse that
+	// hands one of its own parameters on as the file list (writeBinaryFiles(ctx, cops, files)). The wrapper's call
+	// site is then the write, with the wrapper's argument as its file list; the call inside the wrapper is not one.
+	wrappers := map[*ssa.Function]int{}
+	filesArg := func(call ssa.CallInstruction) ssa.Value {
+		if invokeIs(call, endorsePkg, "ChangeOps", "WriteOrCreateFiles") {
+			if args := call.Common().Args; len(args) >= 2 {
+				return args[1]
+			}
+			return nil
+		}
+		if g := call.Common().StaticCallee(); g != nil {
+			if i, ok := wrappers[g]; ok && i < len(call.Common().Args) {
+				return call.Common().Args[i]
+			}
+		}
+		return nil
+	}
+	for changed := true; changed; {
+		changed = false
+		for _, f := range c.P.RepoFunctions() {
+			if load.RelPkg(f) != "endorse" || c.isTestFunc(f) {
+				continue
+			}
+			if _, done := wrappers[f]; done {
+				continue
+			}
+			for _, call := range callsIn(f, func(call ssa.CallInstruction) bool { return filesArg(call) != nil }) {
+				for i, p := range f.Params {
+					if filesArg(call) == ssa.Value(p) {
+						wrappers[f] = i
+						changed = true
+					}
+				}
+			}
+		}
+	}
 	isWrite := func(call ssa.CallInstruction) bool {
-		return invokeIs(call, endorsePkg, "ChangeOps", "WriteOrCreateFiles")
+		fa := filesArg(call)
+		if fa == nil {
+			return false
+		}
+		if p, ok := fa.(*ssa.Parameter); ok {
+			if _, isWrapper := wrappers[p.Parent()]; isWrapper {
+				return false
+			}
+		}
+		return true
 	}
 	writeKind := func(call ssa.CallInstruction) string {
-		args := call.Common().Args
-		if len(args) < 2 {
+		fa := filesArg(call)
+		if fa == nil {
 			return ""
 		}
 		kind := ""
 		lsl := flow.NewSlicer(c.P)
 		lsl.LiftParams = 0
-		lsl.Visit(args[1], func(v ssa.Value) bool {
+		lsl.Visit(fa, func(v ssa.Value) bool {
 			if isMarshalEndorsement(v) {
 				kind = "endorsement"
 				return false
